@@ -7,11 +7,14 @@ import (
 	"flag"
 	"fmt"
 	"os"
+	"os/exec"
+	"path/filepath"
 	"time"
 
 	"verif/sim/core"
 	"verif/sim/props/c04"
 	"verif/sim/props/c05"
+	"verif/sim/props/c07"
 	"verif/sim/props/c13"
 	"verif/sim/props/c18"
 )
@@ -20,6 +23,7 @@ func props() map[string]core.Prop {
 	return map[string]core.Prop{
 		"C04": c04.Prop{},
 		"C05": c05.Prop{},
+		"C07": c07.Prop{},
 		"C13": c13.Prop{},
 		"C18": c18.Prop{},
 	}
@@ -55,9 +59,17 @@ func main() {
 		os.Exit(2)
 	}
 	if *replay != "" {
+		if raceEnabled {
+			p = &racedProp{Prop: p, w: newRaceWatcher()}
+		}
 		os.Exit(doReplay(p, *replay))
 	}
-	part, err := core.RunWorker(p, core.WorkerConfig{Seed: *seed, Worker: *worker, Tier: *tier, MaxCases: *cases, Budget: *budget, ReplayDir: *rdir, Out: *out})
+	cfg := core.WorkerConfig{Seed: *seed, Worker: *worker, Tier: *tier, MaxCases: *cases, Budget: *budget, ReplayDir: *rdir, Out: *out, Race: raceEnabled}
+	if raceEnabled {
+		p = &racedProp{Prop: p, w: newRaceWatcher()}
+		cfg.External = externalTry(*prop, *known)
+	}
+	part, err := core.RunWorker(p, cfg)
 	if err != nil {
 		fmt.Fprintln(os.Stderr, "worker:", err)
 		os.Exit(2)
@@ -89,7 +101,7 @@ func doReplay(p core.Prop, path string) int {
 		code = 2
 	} else if o.Violation != nil {
 		res["violation"] = o.Violation
-		if o.Violation.Class == rp.Violation.Class && o.Violation.Key == rp.Violation.Key && o.TraceHash == rp.TraceHash {
+		if o.Violation.Class == rp.Violation.Class && o.Violation.Key == rp.Violation.Key && (o.TraceHash == rp.TraceHash || rp.TraceHash == "*") {
 			res["reproduced"] = true
 			code = 1
 		} else {
@@ -100,4 +112,66 @@ func doReplay(p core.Prop, path string) int {
 	b, _ := json.MarshalIndent(res, "", " ")
 	fmt.Println(string(b))
 	return code
+}
+
+// racedProp adds the race detector's verdict to a property's own oracles.
+type racedProp struct {
+	core.Prop
+	w *raceWatcher
+}
+
+func (r *racedProp) Run(c interface{}, focus *core.Violation) *core.Outcome {
+	o := r.Prop.Run(c, focus)
+	viols, noise := r.w.check()
+	for _, n := range noise {
+		o.Count("race_reports_without_gorm_access", 1)
+		fmt.Fprintln(os.Stderr, "NOTE:", n)
+	}
+	for _, v := range viols {
+		o.Count("race_reports_with_gorm_access", 1)
+		if focus != nil {
+			if focus.Class == v.Class && focus.Key == v.Key && o.Violation == nil {
+				o.Violation = v
+			}
+			continue
+		}
+		if core.KnownIndex(v) >= 0 {
+			o.Report(v, nil, o.TraceHash) // counted as a known finding
+			continue
+		}
+		if o.Violation == nil {
+			o.Violation = v
+		} else {
+			o.Extra = append(o.Extra, v)
+		}
+	}
+	return o
+}
+
+// externalTry runs a shrink candidate in a fresh process (the race detector
+// reports a pair of stacks once per process).
+func externalTry(prop, known string) func(c interface{}, v *core.Violation, traceHash string) (bool, string) {
+	return func(c interface{}, v *core.Violation, traceHash string) (bool, string) {
+		dir, err := os.MkdirTemp("", "simshrink")
+		if err != nil {
+			return false, ""
+		}
+		defer os.RemoveAll(dir)
+		raw, _ := json.Marshal(c)
+		rp := core.Replay{Property: prop, Violation: *v, TraceHash: "*", Case: raw}
+		b, _ := json.Marshal(rp)
+		path := filepath.Join(dir, "cand.json")
+		os.WriteFile(path, b, 0o644)
+		cmd := exec.Command(os.Args[0], "-prop", prop, "-replay", path, "-known", known)
+		cmd.Env = append(os.Environ(), "GORACE=log_path="+filepath.Join(dir, "race")+" halt_on_error=0 exitcode=0")
+		outb, _ := cmd.Output()
+		if cmd.ProcessState == nil || cmd.ProcessState.ExitCode() != 1 {
+			return false, ""
+		}
+		var res struct {
+			TraceHash string `json:"trace_hash"`
+		}
+		json.Unmarshal(outb, &res)
+		return true, res.TraceHash
+	}
 }
